@@ -37,6 +37,18 @@ Fixpoint list_eqb {A} (f : A -> A -> bool) (a b : list A) : bool :=
 Definition out_eqb (a b : out) : bool :=
   res_eqb (o_res a) (o_res b) && exec_eqb (o_exec a) (o_exec b) && ty_eqb (o_ty a) (o_ty b) && list_eqb ev_eqb (o_evs a) (o_evs b).
 
+(* st: None = the program as written (a Task is started by the ToFuture() at its end); Some e = the program is a lazy one and is
+   started with ToFuture(e) / Detach(e) / Cancel() (Place.dlazy) *)
+Definition obs_c05s (st : option exec) (rej : option (nat * nat)) (cel : list (nat * list (exec * nat))) (p : prog) : list Z :=
+  let pol := pol_of rej in
+  let ce := ce_of cel in
+  match dstart pol ce dinit st p with
+  | Some (o, s) =>
+      [1; encb (match st with None => tyb p | Some _ => tyb p && lazy_prog p end); 1] ++ enc_res (o_res o) ++ [enc_exec (o_exec o)] ++
+      [nz (length (o_evs o))] ++ flat_map enc_ev (o_evs o) ++ [nz (length s)] ++ flat_map enc_job s
+  | None => [0; encb (tyb p)]
+  end.
+
 Definition obs_c05 (rej : option (nat * nat)) (cel : list (nat * list (exec * nat))) (p : prog) : list Z :=
   let pol := pol_of rej in
   let ce := ce_of cel in
@@ -49,5 +61,7 @@ Definition obs_c05 (rej : option (nat * nat)) (cel : list (nat * list (exec * na
   end.
 
 (* several cases in one evaluation: each segment is prefixed by its length *)
-Definition obs_c05_many (l : list (option (nat * nat) * list (nat * list (exec * nat)) * prog)) : list Z :=
-  flat_map (fun c => let '(rej, cel, p) := c in let o := obs_c05 rej cel p in nz (length o) :: o) l.
+Definition obs_c05_many (l : list (option exec * option (nat * nat) * list (nat * list (exec * nat)) * prog)) : list Z :=
+  flat_map (fun c => let '(st, rej, cel, p) := c in
+                     let o := match st with None => obs_c05 rej cel p | Some _ => obs_c05s st rej cel p end in
+                     nz (length o) :: o) l.
